@@ -521,7 +521,7 @@ def explore_numeric(case):
         for ma, mb in ((0, 0), (1, 1), (0, min(n, 2))):
             fa, fb = mkcall(A1, min(ma, n)), mkcall(A2, min(mb, n))
             alone = [fa(), fb()]
-            for choices, results, npts, capped in threads.explore([fa, fb], ("cyecca/models/bezier.py",), 1 if tier == "quick" else 2, max_runs=(1500 if tier == "quick" else 40000)):
+            for choices, results, npts, capped in threads.explore([fa, fb], ("cyecca/models/bezier.py",), 1 if tier == "quick" else 2, max_runs=(1500 if tier == "quick" else 6000)):
                 if capped:
                     res.counters["thread_schedules_capped"] += 1
                     break
